@@ -102,12 +102,14 @@ install(globals(), 'C12', view, oracle,
         level_note='Trusted: Lean kernel + standard axioms; scheduler model ~ Engine.run_for via trace '
                    'correspondence. Units and custom serializers on emission (Store.emit_data) are covered by the '
                    'oracle-only emitser family (quantities, serializer objects and names), not by a theorem; '
-                   'branch-level _emit is compared in C15, store_schema has no scenario of its own; emission '
+                   'branch-level _emit / store_schema: theorems over the Init model (`branch_emit_acts_on_whole_branch`, '
+                   '`store_schema_branch_emit`) plus the store_schema variants of the scheduler scenarios; emission '
                    'through changing hierarchy shapes is covered by the C09/C10 checks of the hierarchy itself.',
         technique='Lean 4 invariant proof over the scheduler log + emit-sequence correspondence',
         extra_corpus=_extra(),
         required=['emit_times_strict', 'row_is_flagged_state', 'one_row_per_batch', 'initial_prefix', 'at_most_one_row_per_pass', 'row_contents',
-                  'every_row_is_the_state_at_its_time'])
+                  'every_row_is_the_state_at_its_time', 'branch_emit_acts_on_whole_branch',
+                  'store_schema_branch_emit'])
 
 
 # emission through units and custom serializers
